@@ -358,7 +358,7 @@ def r2(R):
 # ---------------------------------------------------------------- C04.R3
 
 @rule('C04.R3', 'loadBefore returns only revisions strictly before the '
-      'bound; loadSerial only the exact revision', props=['C15', 'C16'],
+      'bound; loadSerial only the exact revision', props=['C02', 'C15', 'C16'],
       min_instances=3)
 def r3(R):
     fs = R.prog.cls(FS)
